@@ -47,8 +47,29 @@ def _dnf(g):
     return outs
 
 
+def _consistent(gs):
+    """No scrutinee is required to take two different values (`d in [0]` and `d in [1]`, `c in [0]` and `c not in [0]`)."""
+    allowed, excluded = {}, {}
+    for g in gs:
+        m = re.match(r'^(.*?) (not in|in) \[([\d, ]*)\]$', g)
+        if not m:
+            continue
+        vs = {int(v) for v in m.group(3).split(',') if v.strip()}
+        if m.group(2) == 'in':
+            allowed[m.group(1)] = allowed.get(m.group(1), vs) & vs
+        else:
+            excluded.setdefault(m.group(1), set()).update(vs)
+    return all(a - excluded.get(k, set()) for k, a in allowed.items())
+
+
 def sites(fn):
-    return [(what, b, g2) for what, b, g in _sites(fn) for g2 in _dnf(g)]
+    out = []
+    for what, b, g in _sites(fn):
+        for g2 in _dnf(g):
+            g2 = list(dict.fromkeys(g2))
+            if _consistent(g2) and (what, b, g2) not in out:
+                out.append((what, b, g2))
+    return out
 
 
 def _sites(fn):
